@@ -426,7 +426,27 @@ const (
 	ValidationStateValid ValidationState = iota
 	ValidationStateInvalid
 	ValidationStateUnknown
+	// The path itself is valid, but areas can't refer to it, as it's
+	// not closed, or has fewer than 3 points
+	ValidationStateValidButNotForAreas
 )
+
+// pathWithLocations resolves the points of a path via locations, allowing
+// it to be passed to ingest.ValidatePathForArea.
+type pathWithLocations struct {
+	*ingest.GenericFeature
+	locations b6.LocationsByID
+}
+
+func (p pathWithLocations) PointAt(i int) s2.Point {
+	if point := p.GenericFeature.PointAt(i); point.Norm() != 0 {
+		return point
+	}
+	if ll, err := p.locations.FindLocationByID(p.Reference(i).Source()); err == nil {
+		return s2.PointFromLatLng(ll)
+	}
+	return s2.Point{}
+}
 
 type Validator struct {
 	locations b6.LocationsByID
@@ -449,6 +469,9 @@ func (v *Validator) ValidatePath(p *ingest.GenericFeature, fs []ingest.Feature) 
 	if err := ingest.ValidatePath(p, &o, v.locations); err == nil {
 		fs = append(fs, p)
 		state = ValidationStateValid
+		if ingest.ValidatePathForArea(pathWithLocations{p, v.locations}) != nil {
+			state = ValidationStateValidButNotForAreas
+		}
 	} else {
 		state = ValidationStateInvalid
 		log.Printf("ValidatePath: drop invalid path: %s", err)
@@ -484,7 +507,7 @@ func (v *Validator) validateArea(a *ingest.AreaFeature) ValidationState {
 		if ids, ok := a.PathIDs(i); ok {
 			for _, id := range ids {
 				if s, ok := v.paths[id]; ok {
-					if s == ValidationStateInvalid {
+					if s == ValidationStateInvalid || s == ValidationStateValidButNotForAreas {
 						state = ValidationStateInvalid
 					} else if s == ValidationStateUnknown && state == ValidationStateValid {
 						state = ValidationStateUnknown
